@@ -231,11 +231,11 @@ def _zero_like(x):
     from collections import OrderedDict
     if isinstance(x, torch.Tensor):
         return torch.zeros_like(x) if x.dtype != torch.bool else torch.zeros(x.shape, dtype=torch.bool)
-    if isinstance(x, OrderedDict):
+    if type(x) is OrderedDict:
         return OrderedDict((k, _zero_like(v)) for k, v in x.items())
-    if isinstance(x, dict):
+    if type(x) is dict:
         return {k: _zero_like(v) for k, v in x.items()}
-    if isinstance(x, list):
+    if type(x) is list:
         return [_zero_like(v) for v in x]
     return None
 
